@@ -62,6 +62,17 @@ def run(chk, F, tier):
     # ---- E3: no store to *self before the `?` of the word fetch on a path that returns the error
     chk.rule("E3.order", floor=4, doc="refill / peek_bits: on a path where the word fetch fails nothing of the reader has been modified before the failure")
     targets = []
+    # private functions called from a peek_bits implementation of a reader
+    lookahead_helpers = set()
+    for b in F.bodies:
+        sf = b.get("impl_self") or ""
+        if b["kind"] == "AssocFn" and b["path"].endswith("::peek_bits") and (sf.startswith("impls::buf_bit_reader::BufBitReader<") or sf.startswith("impls::bit_reader::BitReader<")):
+            for bl in b["blocks"]:
+                t_ = bl["term"]
+                if t_.get("k") == "call":
+                    for nm_ in ((t_["func"].get("resolved") or {}).get("fn"), t_["func"].get("fn")):
+                        if nm_:
+                            lookahead_helpers.add(nm_)
     for b in F.bodies:
         if b["kind"] != "AssocFn":
             continue
@@ -70,9 +81,9 @@ def run(chk, F, tier):
         is_reader = sf.startswith("impls::buf_bit_reader::BufBitReader<") or sf.startswith("impls::bit_reader::BitReader<")
         if is_reader and nm == "peek_bits" and (b.get("impl_trait_def") or "").startswith("traits::bits::BitRead"):
             targets.append(b)
-        elif is_reader and not b.get("impl_trait") and str(b.get("vis") or "").startswith("Restricted") and \
+        elif is_reader and not b.get("impl_trait") and str(b.get("vis") or "").startswith("Restricted") and b["path"] in lookahead_helpers and \
                 any(bl["term"].get("k") == "call" and (bl["term"]["func"].get("fn") or "").endswith("WordRead::read_word") for bl in b["blocks"]):
-            # a private word-fetching helper of a reader (the look-ahead refill), whatever it is called
+            # a private word-fetching helper of the look-ahead (the refill called by peek_bits), whatever it is called
             targets.append(b)
     SELF = ("deref", ("arg", 1, "self"))
     for b in targets:
